@@ -1,14 +1,14 @@
 CONSTANTS
   W = 2
-  Limit = 2
+  Limit = 1
   L = 1
   Uds = {}
   MaxConns = 4
-  MaxFaults = 0
+  MaxFaults = 2
   MaxCmds = 0
   MaxErrs = 0
   MaxBare = 0
-  WakeAt = 3
+  WakeAt = 2
   IgnoreUnknownIdx = TRUE
   UnlinkOnDeregister = FALSE
   ResumeClearsBackoff = TRUE
@@ -23,10 +23,9 @@ CONSTANTS
   RejoinPausedNoAvail = FALSE
   ResetSeparate = FALSE
   JumpToFirstAvailable = FALSE
-  ReportOnlyIfBitSet = FALSE
+  ReportOnlyIfBitSet = TRUE
 SPECIFICATION Spec
 VIEW View
-INVARIANTS TypeOK C01_Conservation C01_ServedOnce C01_NoSilentDrop C02_Bound C02_NoForcedSend C03_NoLostWake C04_RoundRobin C04_BitsTrueWhenCalm C05_ListenerLive C05_UdsReachable C05_ConnErrNoDelay C05_TimerHasTimeout C08_NoPanic C08_NoSpin C08_NoGhostBit C08_NoDupHandles C08_FaultReportedOnce C08_NoLostIndex LogInit
+INVARIANTS C08_NoLostIndex
 PROPERTIES Steps
-ACTION_CONSTRAINT LogEdge
 CHECK_DEADLOCK FALSE
